@@ -49,6 +49,14 @@ TEXT = {
  "C17": ("proportion", "The validator carries the recorded table of the current (n, level, method) and TLC evaluates the relational clauses between events: monotone in k, "
          "mirror symmetry k <-> n-k with upper <-> lower, shrinking under multipliers, widening with the level, midpoint location; exhaustive over the bounded table.",
          "TLC trace validation with carried state (relational clauses over pairs of recorded calls), exact arithmetic"),
+ "C03": ("proportion", "Rank arithmetic specified over exact dyadic models of the f64 operations (Quantile.tla): successes = round(fl(q n)), ranks = min(floor(fl(p n)), n-1) of the "
+         "crate's own Wilson bounds; TLC enumerates all n up to the bound x a quantile grid with half-integer products and float neighbours, every permutation of small "
+         "multisets and seeded shuffles of large ones, and judges every recorded rank / element / error variant; entry points must agree.",
+         "TLC exhaustive enumeration (ranks, permutations) + trace validation with exact float modelling in TLA+"),
+ "C12": ("proportion", "For each (n, confidence) the harness records the interval of every outcome k (or every q on a grid); TLC forms the acceptance sets by exact comparison and sums the "
+         "binomial distribution exactly (big integers in TLA+ / BigInteger accelerator checked by MC_Binomial), then checks pointwise and mean coverage against the "
+         "specification's slack functions. The probability is summed over all outcomes, not sampled.",
+         "TLC trace validation with carried rows; exact binomial sums in the TLA+ kernel"),
 }
 PENDING_REASON = "check not built yet in this round (planned, see DESIGN.md section 4); not claimed"
 
